@@ -66,7 +66,10 @@ RULE = ('cases 0-15 = the 16 factory flag tuples (get_predefined must return a c
         'KeyError, TypeError, RuntimeError, IndexError, asyncio.CancelledError (exact type names observed). Queue '
         'mode per case: False / True / "model" (async classes; sync classes use True) for flat and crash cases '
         '(queued ones are modelled by Queue.drain over the engine), True or "model" (one model, no removals) for '
-        'queue programs. Each case runs on 12 classes x '
+        'queue programs. "dispatch" = a flat machine with 2-4 models in different states, every history entry is '
+        'machine.dispatch(event, token, k=token) (awaited on the asyncio classes), replies depend on the callback only, '
+        'invalid triggers ignored, <= 1 check per transition (always inside the async envelope); observed per call: each '
+        'model\'s own callback sequence and state, and the result (non-trivial: an earlier model refused, a later accepted). Each case runs on 12 classes x '
         '{by name, through the factory} x diagram backends %s (unavailable here: %s). Non-trivial: the base run '
         'executed a transition after a failed check, or processed >= 2 events / raised, and at least one async class '
         'was compared inside the async envelope; distinct by case hash.' % (BACKENDS, MISSING_BACKENDS))
@@ -81,6 +84,9 @@ ASSUMPTIONS = [
     'a user callback raising asyncio.CancelledError is outside the async envelope (async classes report a cancelled '
     'event, result False, by design — C08); queued="model" cases have one model and no remove_model actions (the '
     'per-model queue of a removed model is deleted by design of that mode)',
+    'dispatch: the asyncio classes gather the models, so the callback order ACROSS models may differ from Machine\'s '
+    'sequential order and is not compared (per-model sequences, states and the result are); the Coq side gives each '
+    'model\'s view (the flat / hierarchical engine on that model\'s history) — Machine.dispatch itself is C10_dispatch',
     'event names the machine knows (unknown names: hierarchical classes route AttributeError through on_exception/'
     'finalize, Machine raises it directly — excluded by the property text)',
 ]
@@ -283,6 +289,8 @@ def async_envelope(case, items):
 
 def _base_items(case, base_obs):
     """all items of the base run in global position order (both observation layouts keep them first)"""
+    if case['sub'] == 'dispatch':
+        return [it for step in base_obs for view in step[0] for it in view[1]]
     return [it for step in base_obs if isinstance(step, list) for it in step[0]]
 
 
@@ -375,6 +383,55 @@ def shrink_queue(case):
                 yield c
 
 
+def gen_dispatch(rng):
+    """machine.dispatch on 2-4 models in different states.  Callbacks neither raise nor call back; replies depend on
+    the callback only (the asyncio classes gather the models, so positions are not comparable); invalid triggers
+    are ignored (an earlier model refusing must not stop the later ones); at most one check per transition, so that
+    every case lies inside the async envelope."""
+    c = flat.gen_case(rng, malformed=False, p_unknown=0.0, hist_len=rng.randint(2, 6))
+    m = c['machine']
+    m['ignore'] = True
+    for _, d in m['states']:
+        if d['ignore'] is False:
+            d['ignore'] = None
+    for _, ts in m['events']:
+        for t in ts:
+            t['conds'] = t['conds'][:1]
+    env = c['env']
+    env['bypos'] = {}
+    for cb in range(1, 200):                       # conditions: about half of them refuse
+        if cb not in env['bycb'] and rng.random() < 0.5:
+            env['bycb'][cb] = (rng.random() < 0.55, None, [])
+    ns, ne = len(m['states']), len(m['events'])
+    nm = rng.randint(2, 4)
+    c['models'] = [(k, rng.randrange(ns)) for k in range(nm)]
+    c['history'] = [(0, rng.randrange(ne), 100 + j) for j in range(len(c['history']))]
+    c['queued'] = rng.choice([0, 0, 0, 1, 2])
+    c.pop('cls', None)
+    del c['init']
+    c['sub'] = 'dispatch'
+    return c
+
+
+def enc_dispatch(case):
+    return [flat.enc_machine(case['machine']), flat.enc_env(case['env']),
+            [[m, s] for m, s in case['models']], [[0, e, a] for k, e, a in case['history']]]
+
+
+def canon_dispatch(case, per_model):
+    """model side: one flat history per model -> per dispatch call [[model, its items, its state] ...], result =
+    conjunction of the per-model results (a queued machine answers True)"""
+    out = []
+    for j in range(len(case['history'])):
+        views, ok = [], True
+        for (mid, _), hist in zip(case['models'], per_model):
+            items, res, st = hist[j]
+            views.append([mid, items, st])
+            ok = ok and (bool(case.get('queued', 0)) or (res[0] == 0 and bool(res[1])))
+        out.append([views, [0, ok]])
+    return out
+
+
 def gen_batch(seed, n, tier):
     cases = []
     for k in ALL_FLAGS:
@@ -382,9 +439,11 @@ def gen_batch(seed, n, tier):
     crash_bases = []
     for i in range(n):
         rng = random.Random('C09-%d-%d' % (seed, i))
-        stream = ('flat', 'crash', 'queue', 'flat', 'crash', 'queue', 'may')[i % 7]
+        stream = ('flat', 'crash', 'queue', 'dispatch', 'crash', 'queue', 'may', 'flat')[i % 8]
         if stream == 'queue':
             cases.append(gen_queue(rng))
+        elif stream == 'dispatch':
+            cases.append(gen_dispatch(rng))
         else:
             follow = rng.randint(2, 4) if stream == 'crash' else 0     # events after the crashing call
             c = flat.gen_case(rng, malformed=False, may=(stream == 'may'), p_unknown=0.0,
@@ -430,6 +489,8 @@ def enc(case):
         return [2, [bool(x) for x in case['flags']]]
     if case['sub'] == 'queue':
         return [1, enc_queue(case)]
+    if case['sub'] == 'dispatch':
+        return [3, enc_dispatch(case)]
     if flat_via_queue(case):
         # a queued machine: the faithful model is Queue.drain over the engine (a queued call returns True unless
         # it raises) — one model, no callback actions
@@ -677,6 +738,47 @@ def run_queue_on(case, cls, flags, backend, queued=True):
         runner.close()
 
 
+def run_dispatch_on(case, cls, flags, backend):
+    """machine.dispatch(event, token, k=token) on several models; observation per call: every model's own callback
+    sequence and state (the asyncio classes gather the models: the order ACROSS models is not compared) and the result"""
+    is_async = bool(flags[3])
+    runner = Runner(is_async)
+    try:
+        world = (AWorld if is_async else CWorld)(case['env'], case['machine']['send'])
+        world.state_of = flat.state_int
+        world.perform = lambda a, item: None
+
+        async def noop(a, item):
+            return None
+        world.aperform = noop
+        models = [flat.Model() for _ in case['models']]
+        for (k, _), mod in zip(case['models'], models):
+            world.model_ids[id(mod)] = k
+        c2 = dict(case)
+        c2['init'] = case['models'][0][1]
+        machine, _ = flat.build_machine(c2, world, cls=cls, models=models,
+                                        extra_kwargs=dict(queued=queued_arg(case, flags), **class_kwargs(flags, backend)))
+        for (k, s0), mod in zip(case['models'], models):
+            machine.set_state('s%d' % s0, mod)
+        out, free = [], 1
+        for (k_, e, a) in case['history']:
+            tok = flat.Token(a)
+            world.items = []
+            try:
+                r = runner.call(lambda: machine.dispatch('e%d' % e, tok, k=tok))
+                res = [0, bool(r)]
+            except BaseException as ex:  # noqa
+                res = [1, classify_exc(ex)]
+            views = [[k, [it for it in world.items if it[2] == k], flat.state_int(mod)]
+                     for (k, _), mod in zip(case['models'], models)]
+            stray = [it for it in world.items if it[2] not in [k for k, _ in case['models']]]
+            out.append([views + ([['stray', stray, 0]] if stray else []), res])
+            free = free and _lock_free(machine, flags)
+        return out, free
+    finally:
+        runner.close()
+
+
 def _classes():
     """[(label, class object, flags)] — every class by name and through the factory"""
     flat._import_transitions()
@@ -717,7 +819,7 @@ def run_all_classes(case, run_on):
     """base observation (Machine by name) and one verdict per (class, way, backend)"""
     classes = _classes()
     base, _ = run_on(case, classes[0][1], classes[0][2], None)
-    base = name_exns(base)
+    base = name_exns(base) if case['sub'] != 'dispatch' else base
     inside = async_envelope(case, _base_items(case, base))
     async_ref = None
     verdicts = []
@@ -726,7 +828,7 @@ def run_all_classes(case, run_on):
             lab = label if backend in (None, 'mermaid') and len(BACKENDS) == 1 else '%s@%s' % (label, backend)
             try:
                 obs, free = run_on(case, cls, fl, backend)
-                obs = name_exns(obs)
+                obs = name_exns(obs) if case['sub'] != 'dispatch' else obs
             except BaseException as ex:  # noqa — constructing/driving the class failed
                 verdicts.append([lab, [0, 'driver: %s: %s' % (type(ex).__name__, ex), []], 0])
                 continue
@@ -745,6 +847,8 @@ def impl_c09(case):
         return impl_factory(case)
     if case['sub'] == 'queue':
         return run_all_classes(case, run_queue_on)
+    if case['sub'] == 'dispatch':
+        return run_all_classes(case, run_dispatch_on)
     return run_all_classes(case, run_flat_on)
 
 
@@ -769,6 +873,12 @@ def canon(case, obs):
     if len(obs) == 3:
         return obs                       # implementation side
     variants = obs[1]
+    if case['sub'] == 'dispatch':
+        vs = [canon_dispatch(case, v) for v in variants]
+        if vs[1] != vs[0]:
+            return [1, ['model-variants-differ', vs[0], vs[1]], []]
+        inside = async_envelope(case, _base_items(case, vs[0]))
+        return [1, vs[0], [[lab, (2 if (fl[3] and not inside) else 1), 1] for lab, fl in labels()]]
     if case['sub'] == 'queue':
         vs = [canon_queue_steps(v) for v in variants]
     elif flat_via_queue(case):
@@ -796,6 +906,12 @@ def _failed_check(it):
     return (it[0] == 2 and not it[6]) or (it[0] == 3 and it[6])
 
 
+def _dispatch_refused_then_accepted(step):
+    """an earlier-registered model refused the event (nothing of a transition ran) and a later one executed one"""
+    acc = [any(4 <= it[0] <= 10 for it in view[1]) for view in step[0]]
+    return any((not acc[i]) and any(acc[i + 1:]) for i in range(len(acc)))
+
+
 def nontrivial(case, obs):
     if case['sub'] == 'factory' or not isinstance(obs, list) or len(obs) != 3 or obs[0] != 1:
         return False
@@ -804,6 +920,8 @@ def nontrivial(case, obs):
         return False
     if case['sub'] == 'queue':
         return any(isinstance(s, list) and len(s) >= 5 and (len(s[4]) >= 2 or s[1][0] == 1) for s in base)
+    if case['sub'] == 'dispatch':
+        return any(_dispatch_refused_then_accepted(step) for step in base)
     for items, res, st in base:
         if (res == [0, True] and any(_failed_check(it) for it in items)) or res[0] == 1:
             return True
@@ -832,7 +950,11 @@ def stats(case, obs, dist):
         if not isinstance(step, list):
             continue
         inc('base_calls')
-        inc('base_items', len(step[0]))
+        if case['sub'] == 'dispatch':
+            inc('base_items', sum(len(v[1]) for v in step[0]))
+            inc('dispatch_calls_earlier_model_refused_later_accepted', 1 if _dispatch_refused_then_accepted(step) else 0)
+        else:
+            inc('base_items', len(step[0]))
         res = step[1]
         if res[0] == 1:
             inc('base_calls_raising')
@@ -853,6 +975,12 @@ def shrink_candidates(case):
     gens = shrink_queue if case['sub'] == 'queue' else __import__('c01').shrink_candidates
     for c in gens(case):
         yield c
+    if case['sub'] == 'dispatch':
+        for i in range(len(case['models'])):
+            if len(case['models']) > 2:
+                c = copy.deepcopy(case)
+                del c['models'][i]
+                yield c
     if case['sub'] != 'queue':
         for p in list(case['env'].get('bypos', {})):
             c = copy.deepcopy(case)
